@@ -41,7 +41,10 @@ class Sanitizer(Transformer):
             )
 
     def _check_input_coords(self, X) -> None:
-        if not X.coords[self.feature_name].identical(self.feature_coords):
+        # Compare the labels only: additional non-index (e.g. scalar) coordinates
+        # attached to the data must not matter
+        given = X.coords[self.feature_name].to_index()
+        if not given.equals(self.feature_coords.to_index()):
             raise ValueError(
                 "Cannot transform data. Feature coordinates are different."
             )
@@ -109,7 +112,10 @@ class Sanitizer(Transformer):
             )
 
             # Validate that non-NaN features match the original from .fit()
-            if not X_valid_features.equals(self.is_valid_feature):
+            # (compare the masks only, not the non-index coordinates attached to them)
+            if not np.array_equal(
+                X_valid_features.values, self.is_valid_feature.values
+            ):
                 raise ValueError(
                     "Input data had NaN features in different locations than"
                     " the original data."
